@@ -22,18 +22,24 @@ pub enum AccessPolicy {
 }
 
 impl AccessPolicy {
-    /// Find the corresponding closing parenthesis in the boolean expression
-    /// given as a string.
-    fn find_matching_closing_parenthesis(boolean_expression: &str) -> Result<usize, Error> {
+    /// Splits the given boolean expression at the parenthesis closing the group
+    /// it starts in. Returns the content of this group and the remaining of the
+    /// expression (after the closing parenthesis).
+    fn split_at_closing_parenthesis(boolean_expression: &str) -> Result<(&str, &str), Error> {
         let mut count = 0;
-        for (index, c) in boolean_expression.chars().enumerate() {
+        // Use byte offsets (and not character positions) since they are used
+        // to slice the expression, which may contain multi-byte characters.
+        for (index, c) in boolean_expression.char_indices() {
             match c {
                 '(' => count += 1,
                 ')' => count -= 1,
                 _ => {}
             };
             if count < 0 {
-                return Ok(index);
+                return Ok((
+                    &boolean_expression[..index],
+                    &boolean_expression[index + c.len_utf8()..],
+                ));
             }
         }
         Err(Error::InvalidBooleanExpression(format!(
@@ -104,53 +110,41 @@ impl AccessPolicy {
                 }
             } else if e == "*" {
                 return Ok(Self::conjugate(Self::Broadcast, q.into_iter()));
-            } else {
-                match &e[..1] {
-                    "(" => {
-                        let offset = Self::find_matching_closing_parenthesis(&e[1..])?;
-                        q.push_back(Self::parse(&e[1..1 + offset]).map_err(|err| {
-                            Error::InvalidBooleanExpression(format!(
-                                "error while parsing '{e}': {err}"
-                            ))
-                        })?);
-                        e = &e[2 + offset..];
-                    }
-                    "|" => {
-                        if e[1..].is_empty() || &e[1..2] != "|" {
-                            return Err(Error::InvalidBooleanExpression(format!(
-                                "invalid separator in: '{e}'"
-                            )));
-                        }
-                        let base = q.pop_front().ok_or_else(|| {
-                            Error::InvalidBooleanExpression(format!("leading OR operand in '{e}'"))
-                        })?;
-                        let lhs = Self::conjugate(base, q.into_iter());
-                        return Ok(lhs | Self::parse(&e[2..])?);
-                    }
-                    "&" => {
-                        if e[1..].is_empty() || &e[1..2] != "&" {
-                            return Err(Error::InvalidBooleanExpression(format!(
-                                "invalid leading separator in: '{e}'"
-                            )));
-                        }
-                        if q.is_empty() {
-                            return Err(Error::InvalidBooleanExpression(format!(
-                                "leading AND operand in '{e}'"
-                            )));
-                        }
-                        e = &e[2..];
-                    }
-                    ")" => {
-                        return Err(Error::InvalidBooleanExpression(format!(
-                            "unmatched closing parenthesis in '{e}'"
-                        )));
-                    }
-                    _ => {
-                        let attr: String = e.chars().take_while(seeker).collect();
-                        q.push_back(Self::Term(QualifiedAttribute::try_from(attr.as_str())?));
-                        e = &e[attr.len()..];
-                    }
+            } else if let Some(rest) = e.strip_prefix('(') {
+                let (group, rest) = Self::split_at_closing_parenthesis(rest)?;
+                q.push_back(Self::parse(group).map_err(|err| {
+                    Error::InvalidBooleanExpression(format!("error while parsing '{e}': {err}"))
+                })?);
+                e = rest;
+            } else if let Some(rest) = e.strip_prefix('|') {
+                let rest = rest.strip_prefix('|').ok_or_else(|| {
+                    Error::InvalidBooleanExpression(format!("invalid separator in: '{e}'"))
+                })?;
+                let base = q.pop_front().ok_or_else(|| {
+                    Error::InvalidBooleanExpression(format!("leading OR operand in '{e}'"))
+                })?;
+                let lhs = Self::conjugate(base, q.into_iter());
+                return Ok(lhs | Self::parse(rest)?);
+            } else if let Some(rest) = e.strip_prefix('&') {
+                let rest = rest.strip_prefix('&').ok_or_else(|| {
+                    Error::InvalidBooleanExpression(format!(
+                        "invalid leading separator in: '{e}'"
+                    ))
+                })?;
+                if q.is_empty() {
+                    return Err(Error::InvalidBooleanExpression(format!(
+                        "leading AND operand in '{e}'"
+                    )));
                 }
+                e = rest;
+            } else if e.starts_with(')') {
+                return Err(Error::InvalidBooleanExpression(format!(
+                    "unmatched closing parenthesis in '{e}'"
+                )));
+            } else {
+                let attr: String = e.chars().take_while(seeker).collect();
+                q.push_back(Self::Term(QualifiedAttribute::try_from(attr.as_str())?));
+                e = &e[attr.len()..];
             }
         }
     }
